@@ -657,6 +657,9 @@ func (w *W) exec(fr *frame, ci *cinstr) cont {
 func (w *W) load(fr *frame, ins ssa.Instruction, x Value) Value {
 	switch p := x.p.(type) {
 	case *Value:
+		if w.traced != nil {
+			w.traceAccess("R", p)
+		}
 		return copyVal(*p)
 	case *SymPtr:
 		return w.symLoad(p)
@@ -669,6 +672,9 @@ func (w *W) load(fr *frame, ins ssa.Instruction, x Value) Value {
 func (w *W) storeTo(fr *frame, ins ssa.Instruction, addr, v Value) {
 	switch p := addr.p.(type) {
 	case *Value:
+		if w.traced != nil {
+			w.traceAccess("W", p)
+		}
 		w.assign(p, v)
 		return
 	case *SymPtr:
